@@ -131,9 +131,14 @@ impl FileSystem {
             for component in components {
                 let name = match component {
                     Component::Normal(name) => name,
-                    Component::RootDir | Component::CurDir => continue,
-                    Component::ParentDir => {
-                        if nodes.len() > 1 {
+                    Component::RootDir => continue,
+                    Component::CurDir | Component::ParentDir => {
+                        // `.` and `..` can be resolved only in a directory.
+                        let node = nodes.last().unwrap();
+                        if !matches!(&node.borrow().body, FileBody::Directory { .. }) {
+                            return Err(Errno::ENOTDIR);
+                        }
+                        if component == Component::ParentDir && nodes.len() > 1 {
                             nodes.pop();
                         }
                         continue;
@@ -156,7 +161,10 @@ impl FileSystem {
             }
 
             let node = nodes.pop().unwrap();
-            if path.as_unix_str().as_bytes().ends_with(b"/")
+            // `Path::components` silently drops a trailing `/` and `/.`, which
+            // still require the file to be a directory.
+            let bytes = path.as_unix_str().as_bytes();
+            if (bytes.ends_with(b"/") || bytes.ends_with(b"/."))
                 && !matches!(&node.borrow().body, FileBody::Directory { .. })
             {
                 return Err(Errno::ENOTDIR);
@@ -439,6 +447,21 @@ mod tests {
         let result = fs.get("/file/");
         assert_eq!(result, Err(Errno::ENOTDIR));
         let result = fs.get("/file/foo");
+        assert_eq!(result, Err(Errno::ENOTDIR));
+    }
+
+    #[test]
+    fn file_system_get_dot_and_dot_dot_in_non_directory() {
+        let mut fs = FileSystem::default();
+        let _ = fs.save("/dir/file", Rc::default());
+        let _ = fs.save("/dir/other", Rc::default());
+        let result = fs.get("/dir/file/.");
+        assert_eq!(result, Err(Errno::ENOTDIR));
+        let result = fs.get("/dir/file/..");
+        assert_eq!(result, Err(Errno::ENOTDIR));
+        let result = fs.get("/dir/file/../other");
+        assert_eq!(result, Err(Errno::ENOTDIR));
+        let result = fs.get("/dir/file/./../other");
         assert_eq!(result, Err(Errno::ENOTDIR));
     }
 
